@@ -246,7 +246,7 @@ C16_MUTANTS = [
      'patches': [(F, """                block.abort_waiters(e)
             else:""", """                pass
             else:""")]},
-    {'name': 'connect_failure_not_retried', 'expect': 'L2',
+    {'name': 'connect_failure_not_retried', 'expect': 'L2', 'budget': 400000,   # nearly healed by the feeder: ~15 hits per 10^6
      'patches': [(F, """                # will jump in and schedule more retries than what we expected.
                 self._schedule_new_conn(block, event)
 """, """                # will jump in and schedule more retries than what we expected.
